@@ -11,6 +11,10 @@ fn main() {
 	println!("ref.try_new;{}", if RefLockCollection::try_new(&pair).is_some() { "Some" } else { "None" });
 	println!("retry.try_new;{}", if RetryingLockCollection::try_new(&pair).is_some() { "Some" } else { "None" });
 	println!("boxed.try_new;{}", if BoxedLockCollection::try_new(&pair).is_some() { "Some" } else { "None" });
+	// one empty owned collection next to an ordinary lock aliases that lock's address
+	let mixed: (Mutex<u8>, E) = (Mutex::new(0), OwnedLockCollection::new([]));
+	let mixed2: [(Mutex<u8>, E); 2] = [(Mutex::new(0), OwnedLockCollection::new([])), (Mutex::new(0), OwnedLockCollection::new([]))];
+	println!("ref.try_new.mixed;{}", if RefLockCollection::try_new(&mixed).is_some() && RefLockCollection::try_new(&mixed2).is_some() { "Some" } else { "None" });
 	// control: two non-empty owned collections never alias
 	type N = OwnedLockCollection<[Mutex<u8>; 1]>;
 	let pair2: (N, N) = (OwnedLockCollection::new([Mutex::new(0)]), OwnedLockCollection::new([Mutex::new(0)]));
